@@ -34,6 +34,17 @@ impl<C, R> StreamingChunker<C, R> {
     }
 }
 
+// Verification hook: fingerprint of the complete chunker state (reader excluded).
+#[cfg(oll3_bita_verif)]
+impl<C: std::hash::Hash, R> StreamingChunker<C, R> {
+    pub fn verif_state_hash<S: std::hash::Hasher>(&self, state: &mut S) {
+        use std::hash::Hash;
+        self.chunk_start.hash(state);
+        self.buf.hash(state);
+        self.chunker.hash(state);
+    }
+}
+
 impl<C, R> Stream for StreamingChunker<C, R>
 where
     C: Chunker + Unpin + Send,
